@@ -59,6 +59,7 @@ type FuncSpec struct {
 	Props     []*Clause // propagates
 	Tols      []*Clause // tolerates
 	Only      []*Clause // failsonly
+	Early     []*Clause // loop N early E: what holds at every return taken from inside loop N (before its normal exit)
 	Steps     []*Clause // loop N step E: relation between the state at the loop head (prev(e)) and at the end of one iteration
 	Modifies  []string
 	HasMod    bool
@@ -414,6 +415,20 @@ func (ss *SpecSet) parseFile(path string) error {
 				}
 				c.Ord = cnt + 1
 				cur.Invs = append(cur.Invs, c)
+			case "early":
+				c, err := mk("early", body)
+				if err != nil {
+					return err
+				}
+				c.Loop = n
+				cnt := 0
+				for _, x := range cur.Early {
+					if x.Loop == n {
+						cnt++
+					}
+				}
+				c.Ord = cnt + 1
+				cur.Early = append(cur.Early, c)
 			case "step":
 				c, err := mk("step", body)
 				if err != nil {
